@@ -8,6 +8,19 @@
 (*                                        file and set its mtime           *)
 (*   Reload   snap notes                  one poll: map afterwards and     *)
 (*                                        what each observer was shown     *)
+(*   RlStat                               a poll taken apart: its stat     *)
+(*                                        found the file changed (the real *)
+(*                                        reload entered the parser)       *)
+(*   RlParse  m                           the parser returned the map m    *)
+(*   RlApplied                            the parser returns to the reload *)
+(*                                        (which assigns the map next)     *)
+(*   RlEnd    snap notes                  the taken-apart poll returned    *)
+(*            Between RlStat and RlParse, between RlParse and RlApplied    *)
+(*            and (inside an observer's callback) between RlApplied and    *)
+(*            RlEnd the harness lets Edit, Get and SetValues events happen *)
+(*            on the goroutine of the reload: the external writer, a       *)
+(*            getter and a write-back interleaved with the steps of the    *)
+(*            reload exactly as MC_FileConfig interleaves them.            *)
 (*   Get      g k d deli ret [tab h0]     one typed getter call            *)
 (*   SetValues kv after mt                write-back; the file afterwards  *)
 (*   CGet     k ret lo hi                 a getter on a reader goroutine   *)
@@ -21,10 +34,11 @@
 (***************************************************************************)
 EXTENDS FileConfig, TraceLib
 
-VARIABLES l, hist
-tvars == <<vars, l, hist>>
+VARIABLES l, hist,
+          pm      \* the map as it was when the taken-apart poll in progress began
+tvars == <<vars, l, hist, pm>>
 
-TraceInit == Init0(<<>>, NoOpt) /\ l = 1 /\ hist = <<>> /\ HwmInit
+TraceInit == Init0(<<>>, NoOpt) /\ l = 1 /\ hist = <<>> /\ pm = <<>> /\ HwmInit
 
 Step(e) == IsEv(l, e) /\ l' = l + 1
 
@@ -42,7 +56,7 @@ TraceReset ==
        /\ busy' = FALSE /\ fatal' = FALSE /\ fresh' = FALSE
        /\ opt' = [pre |-> e.pre, suf |-> e.suf, excl |-> Range(e.excl), nobs |-> e.nobs]
        /\ wkv' = <<>>
-       /\ hist' = <<>>
+       /\ hist' = <<>> /\ pm' = <<>>
 
 \* one poll.  If the stamp changed every observer is called exactly once and is shown the
 \* merged map; a poll that leaves the map as it was may also stay silent.
@@ -57,6 +71,7 @@ ReloadEv(name) ==
                  \/ /\ e.notes = <<>> /\ mem' = mem
             ELSE e.notes = <<>>
        /\ hist' = Append(hist, mem')
+  /\ pm' = pm
 
 TraceNew == ReloadEv("New")
 TraceReload == ReloadEv("Reload")
@@ -67,7 +82,7 @@ TraceEdit ==
        /\ e.parsed = e.lines              \* the harness's reader of the syntax agrees with its writer
        /\ Stamp2(e) # Stamp(Conf)         \* (harness obligation: distinct modification times)
        /\ ExtEdit(e.lines, Stamp2(e))
-       /\ UNCHANGED <<modn, hist>>
+       /\ UNCHANGED <<modn, hist, pm>>
 
 HashOK(e, S) ==
   /\ \A t \in S : \E i \in 1..Len(e.tab) : e.tab[i][1] = t
@@ -88,12 +103,12 @@ TraceGet ==
          [] e.g \in {"StringHashSet", "StringHashCodeSet"} -> HashOK(e, SetTokens(e.k, e.d, Range(e.deli)))
          [] e.g = "Keys" -> Range(e.ret) = DOMAIN mem /\ Len(e.ret) = Cardinality(DOMAIN mem)
          [] OTHER -> FALSE
-  /\ UNCHANGED <<vars, hist>>
+  /\ UNCHANGED <<vars, hist, pm>>
 
 TraceSetValues ==
   /\ Step("SetValues")
   /\ LET e == Trace[l] IN SvAtomic(Fn(e.kv), e.after, Stamp2(e))
-  /\ UNCHANGED hist
+  /\ UNCHANGED <<hist, pm>>
 
 \* a getter that ran concurrently with the reloading goroutine returned the value of
 \* one of the versions that can have been current while it ran
@@ -103,19 +118,58 @@ TraceCGet ==
        /\ e.lo <= e.hi /\ e.hi < Len(hist)
        /\ \E j \in e.lo..e.hi :
             e.ret = (IF e.k \in DOMAIN hist[j + 1] THEN Trim(hist[j + 1][e.k]) ELSE <<>>)
-  /\ UNCHANGED <<vars, hist>>
+  /\ UNCHANGED <<vars, hist, pm>>
 
 TraceCKeys ==
   /\ Step("CKeys")
   /\ LET e == Trace[l] IN
        /\ e.lo <= e.hi /\ e.hi < Len(hist)
        /\ \E j \in e.lo..e.hi : Range(e.ret) = DOMAIN hist[j + 1]
-  /\ UNCHANGED <<vars, hist>>
+  /\ UNCHANGED <<vars, hist, pm>>
 
-TraceCEnd == Step("CEnd") /\ UNCHANGED <<vars, hist>>
+TraceCEnd == Step("CEnd") /\ UNCHANGED <<vars, hist, pm>>
+
+---------------------------------------------------------------------------
+(* one poll taken apart into the steps of the model (RlStat, RlParse, all   *)
+(* map assignments, RlNotify); what happens between them is in the trace    *)
+
+\* the real reload went on to parse: its stat must have shown a change
+TraceRlStat ==
+  /\ Step("RlStat")
+  /\ Changed
+  /\ RlStat
+  /\ pm' = mem
+  /\ UNCHANGED hist
+
+\* the parser read the file as it is at this instant
+TraceRlParse ==
+  /\ Step("RlParse")
+  /\ RlParse
+  /\ SnapOf(Fn(Trace[l].m)) = SnapOf(Parsed)
+  /\ UNCHANGED <<hist, pm>>
+
+TraceRlApplied ==
+  /\ Step("RlApplied")
+  /\ RlApplyAll
+  /\ UNCHANGED <<hist, pm>>
+
+\* the poll returned: the map holds what was parsed (not what an edit that came later put
+\* into the file), every observer was shown that map once (a poll that left the map as it
+\* was may stay silent)
+TraceRlEnd ==
+  /\ Step("RlEnd")
+  /\ RlNotify
+  /\ LET e == Trace[l] IN
+       /\ Range(e.snap) = SnapOf(mem) /\ Len(e.snap) = Cardinality(DOMAIN mem)
+       /\ \/ /\ Len(e.notes) = opt.nobs
+             /\ \A i \in 1..Len(e.notes) : Range(e.notes[i]) = SnapOf(mem)
+          \/ /\ e.notes = <<>> /\ mem = pm
+  /\ hist' = Append(hist, mem)
+  /\ pm' = pm
 
 TraceNext == (TraceReset \/ TraceNew \/ TraceReload \/ TraceEdit \/ TraceGet \/ TraceSetValues
-              \/ TraceCGet \/ TraceCKeys \/ TraceCEnd) /\ InvAll'
+              \/ TraceCGet \/ TraceCKeys \/ TraceCEnd
+              \/ TraceRlStat \/ TraceRlParse \/ TraceRlApplied \/ TraceRlEnd) /\ InvAll'
 
 TraceSpec == TraceInit /\ [][TraceNext]_tvars
 
